@@ -1327,7 +1327,6 @@ class ThreadsafeForwardingResult(TestResult):
                 self.result.tags(*self._global_tags)
             if self._any_tags(self._test_tags):
                 self.result.tags(*self._test_tags)
-            self._test_tags = set(), set()
             try:
                 method(test, *args, **kwargs)
             finally:
